@@ -141,6 +141,23 @@ def run(ck: Check) -> int:
                         ck.report(Failing(f'glob literal {lit!r} vs {other!r}: matched={bool(got2)}, case-insensitive={ci2}',
                                           {'api': 'globmatch', 'pattern': 'd/' + lit, 'name': 'd/' + other, 'flags': cm2}, ci2, bool(got2)), None)
             sr.distinct += 1
+            # ---- Windows rules in FNMATCH mode: `/` written anywhere in the pattern (also inside an extended group) matches `/`
+            # and `\\`; equals Unix+IGNORECASE on the normalised name (added after seeded change C17d)
+            fq = R.choice(['@(a/b)', 'a/b', '?(a/)b', '!(a/b)', '*(a|b/)c', 'a@(/|x)b', '+(a/b|c)', 'a/*', '[ab]/?', '@(a|b)/@(a|b)', '*/!(a)'])
+            if k % 3 == 0:
+                fq = ppats[k % len(ppats)] if '\\' not in ppats[k % len(ppats)] else fq
+            try:
+                with common.time_limit(5):
+                    fw = F.compile(fq, flags=F.EXTMATCH | F.FORCEWIN | F.DOTMATCH)
+                    fu = F.compile(fq, flags=F.EXTMATCH | F.FORCEUNIX | F.IGNORECASE | F.DOTMATCH)
+                    for x in ['a/b', 'a\\b', 'A\\b', 'a/', 'a\\', 'b', 'ab', 'a\\bc', 'a/bc', 'b\\a', 'a\\b\\c', 'c', 'a/a', 'b\\b', 'x/b']:
+                        sr.evaluations += 1
+                        if bool(fw.match(x)) != bool(fu.match(x.replace('\\', '/'))):
+                            ck.report(Failing(f'fnmatch FORCEWIN on {x!r} differs from Unix+IGNORECASE on the normalised name for {fq!r}',
+                                              {'api': 'fnmatch', 'pattern': fq, 'name': x, 'flags': F.EXTMATCH | F.FORCEWIN | F.DOTMATCH},
+                                              bool(fu.match(x.replace('\\', '/'))), bool(fw.match(x))), None)
+            except common.CallTimeout:
+                pass
             # ---- Windows rules on paths: separators interchangeable; equals Unix+IGNORECASE on the normalised name
             q = ppats[k % len(ppats)]
             if '\\' in q:
